@@ -83,6 +83,13 @@ pub fn test_case(c: &Case) -> (Result<CaseInfo, Fail>, Obs) {
     (r, obs)
 }
 
+/// `count` pseudo-random schedule prefixes (choice indices are reduced modulo the number of
+/// enabled actions by the explorer), derived from the seed
+pub fn random_scripts(seed: u64, count: usize) -> Vec<Vec<usize>> {
+    let mut m = crate::sim::sched::Mix(seed ^ 0x5c51_9a7e);
+    (0..count).map(|_| (0..2 + m.below(6)).map(|_| m.below(4)).collect()).collect()
+}
+
 /// next script in DFS order below a fixed first choice; None when exhausted
 pub fn next_script(script: &[usize], branching: &[usize], fixed_prefix: usize) -> Option<Vec<usize>> {
     let mut s: Vec<usize> = (0..branching.len()).map(|i| script.get(i).copied().unwrap_or(0)).collect();
